@@ -80,7 +80,7 @@ func c10RunChunk(t *testing.T, env verifEnv, cases []*c10Case, refs []c10Ref, lo
 		}
 		// the process exited while the frame of step `last` was being processed
 		o := &cases[refs[last].ci].Ops[refs[last].oi]
-		o.Done, o.Alive, o.Replies, o.By, o.ByOk, o.DSame, o.Closed, o.Api = true, false, []string{}, []string{}, false, false, false, 0
+		o.Done, o.Alive, o.Replies, o.By, o.ByOk, o.DSame, o.Closed, o.Api, o.Off = true, false, []string{}, []string{}, false, false, false, 0, 0
 		if i := strings.Index(txt, "panic:"); i >= 0 {
 			p := txt[i:]
 			if len(p) > 1200 {
@@ -158,8 +158,23 @@ func TestVerifC10(t *testing.T) {
 				o := &c.Ops[j]
 				*o = c10Step{St: o.St, K: o.K, Doc: o.Doc, Raw: o.Raw, Class: o.Class}
 			}
-			c.Id = i
+			// The driver matches the verdicts of a replayed case by the id the case has in the
+			// replay file (confirmation run of a failing case, shrinking); renumber only when the
+			// file does not give distinct ids.
 			cases = append(cases, &c)
+		}
+		seenId := map[int]bool{}
+		distinct := true
+		for _, c := range cases {
+			if seenId[c.Id] {
+				distinct = false
+			}
+			seenId[c.Id] = true
+		}
+		if !distinct {
+			for i, c := range cases {
+				c.Id = i
+			}
 		}
 	} else {
 		perCase := 12
@@ -223,6 +238,26 @@ func TestVerifC10(t *testing.T) {
 			add(st, c10Step{K: "doc", Doc: it.doc, Class: it.class}, false)
 			hist["random_steps"]++
 		}
+	}
+	if env.replay == "" {
+		// the resume cases spread over the list, so that every child (one hub each) runs one late
+		rc := c10ResumeCases()
+		n := len(cases)
+		var mixed []*c10Case
+		next := 0
+		for i, c := range cases {
+			mixed = append(mixed, c)
+			if next < len(rc) && i+1 == (next+1)*n/len(rc) {
+				r := rc[next]
+				mixed = append(mixed, &r)
+				next++
+			}
+		}
+		for i, c := range mixed {
+			c.Id = i
+		}
+		cases = mixed
+		hist["resume_cases"] = len(rc)
 	}
 	for _, c := range cases {
 		c.Fixed = fixed
@@ -297,6 +332,9 @@ func TestVerifC10(t *testing.T) {
 			if o.Closed {
 				sink.count("obs/connection-closed")
 			}
+			if o.Off != 0 {
+				sink.count("obs/stored-for-session-without-connection")
+			}
 			if o.Api != 0 {
 				sink.count(fmt.Sprintf("obs/dialout-request-ended-%d", o.Api))
 			}
@@ -326,6 +364,6 @@ func TestVerifC10(t *testing.T) {
 		sink.stats.Histogram["tree_has_fix_02_label"] = 1
 	}
 	sink.stats.Notes = append(sink.stats.Notes, "one case = up to 12 independent steps (state, frame, observation); evaluations counts cases, the histogram counts steps",
-		"states: 0 no hello yet, 1 authenticated client, 2 client in the bystander's room, 3 internal client in that room, 4 internal client with a pending dialout, 5 client in the room on a resumed session")
-	sink.close("frames sent by real websocket clients to a real Hub in child processes, per session state: shape enumeration over the schema of ClientMessage read by reflection (document / member / sub-member positions x absent, null, wrong kinds, boundary values), repeated names, nesting limit, media payloads, hello parameters, URLs, the pending dialout id on every internal message; raw frames (truncations, junk, invalid UTF-8, size limit and limit+1, binary, empty); a seeded mutation stream; non-trivial = beyond the valid messages and whole-document shapes, or with a state change; distinct = distinct (state, class, observation) sequences")
+		"states: 0 no hello yet, 1 authenticated client, 2 client in the bystander's room, 3 internal client in that room, 4 internal client with a pending dialout, 5 client in the room on a resumed session; in every hub the room has a bystander (connected) and a member whose connection was interrupted (messages to it are stored for the resume)")
+	sink.close("frames sent by real websocket clients to a real Hub in child processes, per session state: shape enumeration over the schema of ClientMessage read by reflection (document / member / sub-member positions x absent, null, wrong kinds, boundary values), repeated names, nesting limit, media payloads, hello parameters, URLs, the pending dialout id on every internal message, chat / arbitrary payloads to a session without connection (by session id, room, user, call); raw frames (truncations, junk, invalid UTF-8, size limit and limit+1, binary, empty); a seeded mutation stream; non-trivial = beyond the valid messages and whole-document shapes, or with a state change; distinct = distinct (state, class, observation) sequences")
 }
